@@ -12,7 +12,7 @@
      7..9 the project lies in the defect class of the flag (strip: a code part contains `#` or `//`;
           block: a /* */ comment occurs; asym: some stored window spans more source lines than W)
    judge2 (cases on which a clause failed or bit 6 is false; all cases once bit 6 failed anywhere):
-     0 the four clauses hold of the model's output under the ideal vector (exact only)
+     0 the clauses hold of the model's output under the ideal vector (filter stream: mutuality and count on the stored rows)
      1..5 impl = model c  for c = claimed vector, claimed minus one flag (strip, block, asym), ideal
    The VM is call-by-value: laziness is expressed with `if`. *)
 From TL Require Import Lib.Base Lib.GenTypes Model.DryBase Model.DryPipe Gen.DryGen Model.Dry Model.DrySpec.
@@ -58,23 +58,28 @@ Definition cand_ok (exact : bool) (irows : option (list row)) (k : nat) (impl : 
 Definition RI (tbl : list string) (f s e : nat) (ids : list nat) : row :=
   Build_row f s e (join nl (map (fun i => nth i tbl "") ids)).
 
+(* R: all reported violations (parsed fields); msgs: a sample of them with the raw message text *)
 Definition judge1 (q : dquirks) (exact : bool) (W k : nat) (files : list afile) (paths : list string)
-           (impl : list (viol * string)) (irows : option (list row)) : list bool :=
-  let R := map fst impl in
+           (R : list viol) (msgs : list (viol * string)) (irows : option (list row)) : list bool :=
   let rrows := ref_rows W files in
   let mrows := dry_rows q W files in
   (* the count clause is relative to the stored rows when filters may have dropped windows *)
   let crows := if exact then rrows else match irows with Some ri => ri | None => rrows end in
-  parse_ok paths impl :: lit_ok q files
+  parse_ok paths msgs :: lit_ok q files
   :: spec_bits exact files W k crows R
   ++ [cand_ok exact irows k R q mrows; class_strip files; class_block files; class_asym W mrows].
 
 Definition judge2 (q : dquirks) (exact : bool) (W k : nat) (files : list afile)
-           (impl : list (viol * string)) (irows : option (list row)) : list bool :=
-  let R := map fst impl in
+           (R : list viol) (irows : option (list row)) : list bool :=
   let r0 := dry_rows q W files in
   let ri := dry_rows dry_ideal W files in
-  let ideal_out := if exact then forallb (fun b => b) (spec_bits true files W k (ref_rows W files) (dry_report dry_ideal k ri)) else true in
+  (* ordinary stream: the ideal model's report must satisfy every clause; filter stream: the ideal report on the
+     stored rows must be mutual and count exactly (its text is whatever the implementation stored) *)
+  let ideal_out := if exact then forallb (fun b => b) (spec_bits true files W k (ref_rows W files) (dry_report dry_ideal k ri))
+                   else match irows with
+                        | Some rs => let Ri := dry_report dry_ideal k rs in if mutual_b Ri then count_b rs Ri else false
+                        | None => true
+                        end in
   [ideal_out;
    cand_ok exact irows k R q r0;
    cand_ok exact irows k R (dwith_flag 0 q) (dry_rows (dwith_flag 0 q) W files);
